@@ -87,6 +87,9 @@ type FaultSpec struct {
 	Kind   string `json:"kind"` // none | eof | ueof | custom | partial | partialeof
 	At     int64  `json:"at"`   // number of bytes deliverable before the fault
 	Sticky bool   `json:"sticky"`
+	// Burst > 1: a transient fault fails that many consecutive Reads before the
+	// device delivers again (a retry loop gives up after a few attempts)
+	Burst int `json:"burst,omitempty"`
 }
 
 // ItemDirective shapes one item's column of the scripted result matrix.
@@ -136,6 +139,9 @@ type RunConfig struct {
 	CarrierOffset int    `json:"carrier_offset,omitempty"`
 	Picks     []int         `json:"picks,omitempty"`
 	Note      string        `json:"note,omitempty"`
+	// Stdio: condition of the process's standard output during the run:
+	// "" (discarded) | closed (every write fails) | pipe-closed (reader gone)
+	Stdio string `json:"stdio,omitempty"`
 	// Fresh: the case is executed in a process of its own that has done nothing
 	// else (a re-execution of the engine binary), observed run first: state the
 	// code keeps for the life of a process - a lazily built table, a grow-only
